@@ -26,6 +26,9 @@ def templates(text):
 
 def placeholders(tpl):
     """the placeholders of a std::fmt template ('{{' and '}}' are escapes); None if it is malformed"""
+    # the text is Rust source of a string literal: escapes (\u{..}, \n, \", \\) are not template syntax
+    tpl = re.sub(r"\\u\{[0-9a-fA-F_]+\}", "?", tpl)
+    tpl = re.sub(r"\\.", "?", tpl)
     out, i = [], 0
     while i < len(tpl):
         c = tpl[i]
